@@ -53,6 +53,17 @@ impl Extra {
     }
 }
 
+#[cfg(all(compio_rs_compio_verif, not(windows)))]
+impl Extra {
+    /// Default extra data of the (polling, when fused) driver, built without a driver instance.
+    pub(crate) fn detached() -> Self {
+        cfg_select! {
+            fusion => { Self(sys::Extra::Poll(poll::Extra::new())) }
+            _ => { Self(sys::Extra::new()) }
+        }
+    }
+}
+
 impl Extra {
     iour_only! {
         /// Checks whether this completion reports a notification (2nd CQE returned for a zerocopy op).
